@@ -131,7 +131,7 @@ def set_sym_offset(off: int):
 # --------------------------------------------------------------------------- #
 # S3 id-hash salts
 
-_salt_state = {"salt": None, "orig": {}}
+_salt_state = {"salt": None, "orig": {}, "n": 0, "base": 0}
 
 
 def _mix(salt: int, key: int) -> int:
@@ -142,10 +142,22 @@ def _mix(salt: int, key: int) -> int:
     return x & 0x7FFFFFFFFFFFFFFF
 
 
+def salt_mark_base():
+    """Call after warm-up in the parent: serial numbers handed out to objects
+    created during a run restart from here at every run."""
+    _salt_state["base"] = _salt_state["n"]
+
+
+def salt_begin_run(salt: int):
+    """(Re)seed the hash order for one run.  Makes the iteration order of every
+    set/dict keyed by Sym, LoopIR.proc, Config, Extern objects and Memory
+    classes a function of `salt` and of creation order - not of memory
+    addresses, which depend on everything the process allocated before."""
+    install_hash_salt(salt)
+    _salt_state["n"] = _salt_state["base"]
+
+
 def install_hash_salt(salt: int):
-    """Make the iteration order of sets/dicts keyed by Sym, LoopIR.proc,
-    Config, Extern objects and Memory classes a function of `salt` instead of
-    of memory addresses."""
     from abc import ABCMeta
 
     from exo.core.prelude import Sym
@@ -164,17 +176,13 @@ def install_hash_salt(salt: int):
         "Config": Config.__hash__,
         "Extern": Extern.__hash__,
     }
-    serial = {"n": 0}
 
     def _serial(obj):
         s = obj.__dict__.get("_sim_serial")
         if s is None:
-            serial["n"] += 1
-            s = serial["n"]
-            try:
-                object.__setattr__(obj, "_sim_serial", s)
-            except Exception:
-                return id(obj)
+            st["n"] += 1
+            s = st["n"]
+            object.__setattr__(obj, "_sim_serial", s)
         return s
 
     def sym_hash(self):
@@ -183,31 +191,22 @@ def install_hash_salt(salt: int):
     def obj_hash(self):
         return _mix(st["salt"] ^ 0x5151, _serial(self))
 
+    def proc_hash(self):
+        # id-hash semantics are kept (two structurally equal procs are different
+        # keys); only the value is a serial number instead of an address
+        return _mix(st["salt"] ^ 0xA7A7, _serial(self))
+
     Sym.__hash__ = sym_hash
     Config.__hash__ = obj_hash
     Extern.__hash__ = obj_hash
-    # LoopIR.proc is an attrs-style frozen class: keep id-hash semantics (two
-    # structurally equal procs are different keys) but salt it through a
-    # side table keyed by id, populated lazily.
-    _pser = {}
-
-    def proc_hash(self):
-        i = id(self)
-        s = _pser.get(i)
-        if s is None:
-            serial["n"] += 1
-            s = _pser[i] = serial["n"]
-        return _mix(st["salt"] ^ 0xA7A7, s)
-
     LoopIR.proc.__hash__ = proc_hash
-    st["pser"] = _pser
 
     class SimMeta(ABCMeta):
         def __hash__(cls):
             s = cls.__dict__.get("_sim_serial")
             if s is None:
-                serial["n"] += 1
-                s = serial["n"]
+                st["n"] += 1
+                s = st["n"]
                 type.__setattr__(cls, "_sim_serial", s)
             return _mix(st["salt"] ^ 0x3C3C, s)
 
